@@ -43,6 +43,10 @@ CommitR == \E c \in {Pick(Chains)} : Commit(c)
 UpdateGood == \E c \in {Pick(Chains)} : \E d \in {Pick(Chains \ {c})} : UpdateClient(c, d, h[d], "relayer")
 UpdateR    == \E c \in {Pick(Chains)} : \E d \in {Pick(Chains \ {c})} : \E k \in {Pick(0..MaxH)} : \E s \in {Pick(Signers)} :
                  UpdateClient(c, d, k, s)
+(* the registered relayer submits, for a height the counterparty has (often one the client already verified), a header  *)
+(* that the counterparty's validators never signed (another application hash, signed by a private validator)           *)
+UpdateForged == \E c \in {Pick(Chains)} : \E d \in {Pick(Chains \ {c})} :
+                 \E k \in {IF Pick(1..3) > 1 THEN Pick(clients[c][d].cons \cup {h[d]}) ELSE Pick(0..MaxH)} : UpdateClient(c, d, k, "forger")
 
 Pending == {p \in sent : T(p) \notin receipts[p.dst]}
 GoodRecvHeights(p) == {k \in clients[p.dst][p.src].cons : k + 1 <= Len(snaps[p.src]) /\ p \in snaps[p.src][k + 1].commits}
@@ -116,9 +120,10 @@ AckRev0 ==  /\ Ackable # {} /\ "rev0" \in Proofs
 RotateR == WithRotate /\ \E c \in {Pick(Chains)} : \E d \in {Pick(Chains \ {c})} : Rotate(c, d)
 
 RetoggleR == \E c \in {Pick(Chains)} : \E d \in {Pick(Chains \ {c})} : Retoggle(c, d)
+NewClientR == \E c \in {Pick(Chains)} : \E d \in {Pick(Chains \ {c})} : \E nm \in {Pick({"prefix", "ext"})} : NewClient(c, d, nm)
 
 Useful  == CommitUseful \/ UpdateUseful \/ RecvUseful \/ AckUseful \/ SendR \/ SendBackR \/ SendViaR \/ SendBadCbR \/ SendTwoR
-Hostile == SendR \/ CommitR \/ UpdateR \/ RecvGood \/ RecvR \/ RecvDup \/ AckGood \/ AckR \/ RecvForged \/ AckForged \/ AckForgedCode \/ AckDup \/ RetoggleR \/ RecvRev0 \/ AckRev0 \/ RotateR
+Hostile == SendR \/ CommitR \/ UpdateR \/ UpdateForged \/ RecvGood \/ RecvR \/ RecvDup \/ AckGood \/ AckR \/ RecvForged \/ AckForged \/ AckForgedCode \/ AckDup \/ RetoggleR \/ NewClientR \/ RecvRev0 \/ AckRev0 \/ RotateR
 
 MInit == Init /\ hist = << >>
 
@@ -127,9 +132,18 @@ MInit == Init /\ hist = << >>
 (* sequences and heights reach the hundreds (behaviour that depends on how much history there is).                   *)
 LongSrc == CHOOSE c \in Chains : TRUE
 LongDst == CHOOSE d \in Chains \ {LongSrc} : TRUE
+LongAckEnabled == Ackable # {} \/ (Unacked # {} /\ ((Dirty(LongDst) /\ h[LongDst] < MaxH) \/ clients[LongSrc][LongDst].latest < h[LongDst]))
+LongAck ==
+  IF Ackable # {}
+  THEN \E p \in {CHOOSE x \in Ackable : \A y \in Ackable : x.seq <= y.seq} : \E k \in {Pick(GoodAckHeights(p))} :
+          Ack(p.src, p, WrittenCode(p), "none", "none", k, "ok", "relayer")
+  ELSE IF Dirty(LongDst) /\ h[LongDst] < MaxH THEN Commit(LongDst)
+  ELSE UpdateClient(LongSrc, LongDst, h[LongDst], "relayer")
 LongNext ==
   IF Pick(1..25) = 1 /\ (sent \ Pending) # {} THEN RecvDup
-  ELSE IF Pick(1..25) = 1 /\ ENABLED AckUseful THEN AckUseful
+  (* acknowledgements start late and take the oldest packet first (by then many later packets are committed); the      *)
+  (* destination is committed and the source's client of it updated as far as that needs                               *)
+  ELSE IF Cardinality(sent) >= 12 /\ Pick(1..12) = 1 /\ LongAckEnabled THEN LongAck
   ELSE IF Receivable # {} THEN RecvUseful
   ELSE IF Pending # {} /\ Dirty(LongSrc) /\ h[LongSrc] < MaxH THEN Commit(LongSrc)
   ELSE IF Pending # {} /\ clients[LongDst][LongSrc].latest < h[LongSrc] THEN UpdateClient(LongDst, LongSrc, h[LongSrc], "relayer")
